@@ -304,6 +304,9 @@ func FunctionMap() map[string]physical.FunctionDetails {
 					OutputType:    octosql.String,
 					Strict:        true,
 					Function: func(values []octosql.Value) (octosql.Value, error) {
+						if values[1].Int < 0 {
+							return octosql.Value{}, fmt.Errorf("can't repeat a string a negative number of times: %d", values[1].Int)
+						}
 						return octosql.NewString(strings.Repeat(values[0].Str, int(values[1].Int))), nil
 					},
 				},
@@ -312,6 +315,9 @@ func FunctionMap() map[string]physical.FunctionDetails {
 					OutputType:    octosql.String,
 					Strict:        true,
 					Function: func(values []octosql.Value) (octosql.Value, error) {
+						if values[0].Int < 0 {
+							return octosql.Value{}, fmt.Errorf("can't repeat a string a negative number of times: %d", values[0].Int)
+						}
 						return octosql.NewString(strings.Repeat(values[1].Str, int(values[0].Int))), nil
 					},
 				},
